@@ -84,3 +84,141 @@ def pm_config(I, fee_collector='fee_collector', farm_manager='farm_manager', cre
 
 def reserves_of(pool):
     return [c.get('amount') for c in pool.get('assets').e]
+
+
+# ---------------------------------------------------------------- native replay helpers
+
+def rj(x):
+    """symbolic-world string -> replay JSON string (addresses as @label, contract addresses inside denoms)"""
+    if isinstance(x, str):
+        return x.replace('factory/pool_manager/', 'factory/{@pool_manager}/').replace('factory/farm_manager/', 'factory/{@farm_manager}/')
+    return x
+
+
+def addr_j(a):
+    return '@' + a
+
+
+def coin_j(denom, amount):
+    return {'denom': rj(denom), 'amount': str(amount)}
+
+
+def dec_j(atomics):
+    """Decimal JSON (string with 18 fractional digits)"""
+    a = int(atomics)
+    return '%d.%018d' % (a // E18, a % E18)
+
+
+def pool_json(ident, denoms, decimals, reserves, ptype, fees, status=(True, True, True), lp_denom=None):
+    p, s, b, ex = fees
+    return {
+        'pool_identifier': ident,
+        'asset_denoms': [rj(d) for d in denoms],
+        'lp_denom': rj(lp_denom or 'factory/pool_manager/%s.LP' % ident),
+        'asset_decimals': list(decimals),
+        'assets': [coin_j(d, r) for d, r in zip(denoms, reserves)],
+        'pool_type': ptype,
+        'pool_fees': {'protocol_fee': {'share': dec_j(p)}, 'swap_fee': {'share': dec_j(s)}, 'burn_fee': {'share': dec_j(b)},
+                      'extra_fees': [{'share': dec_j(e)} for e in ex]},
+        'status': {'swaps_enabled': status[0], 'deposits_enabled': status[1], 'withdrawals_enabled': status[2]},
+    }
+
+
+def observe_bank(I, b, keys, supplies=()):
+    for (a, d) in keys:
+        I.observe('bal:%s:%s' % (a, d), b.get(a, d))
+    for d in supplies:
+        I.observe('supply:%s' % d, b.supply.get(d, 0))
+
+
+def observe_pool(I, ident):
+    p = get_pool(I, ident)
+    if p is None:
+        I.observe('pool:%s' % ident, None)
+        return
+    for c in p.get('assets').e:
+        I.observe('pool:%s:%s' % (ident, c.get('denom')), c.get('amount'))
+
+
+def obs_steps_and_judge(obs, tx_index):
+    """query steps for the registered observables + a judge comparing native values with the predicted ones"""
+    steps = []
+    keys = []
+    pools = set()
+    for k in sorted(obs):
+        parts = k.split(':')
+        if parts[0] == 'bal':
+            steps.append({'op': 'balance', 'addr': parts[1], 'denom': rj(':'.join(parts[2:]))})
+            keys.append(k)
+        elif parts[0] == 'supply':
+            steps.append({'op': 'supply', 'denom': rj(':'.join(parts[1:]))})
+            keys.append(k)
+        elif parts[0] == 'pool' and parts[1] not in pools:
+            pools.add(parts[1])
+            steps.append({'op': 'query', 'contract': 'pool_manager', 'msg': {'pools': {'pool_identifier': parts[1]}}})
+            keys.append('poolq:' + parts[1])
+
+    def judge(out, base):
+        res = out['results']
+        diffs = []
+        st = obs.get('status')
+        if st is not None:
+            r = res[tx_index]
+            native = 'ok' if 'ok' in r else 'err'
+            if native != st:
+                diffs.append('status predicted %s native %s (%s)' % (st, native, json_short(r)))
+        for i, k in enumerate(keys):
+            r = res[base + i]
+            if k.startswith('poolq:'):
+                pid = k[6:]
+                if 'ok' not in r:
+                    if any(kk.startswith('pool:%s:' % pid) for kk in obs):
+                        diffs.append('pool %s query failed natively' % pid)
+                    continue
+                assets = r['ok']['pools'][0]['pool_info']['assets']
+                amap = {a['denom']: int(a['amount']) for a in assets}
+                addrs = out.get('addrs', {})
+                for kk, v in obs.items():
+                    if kk.startswith('pool:%s:' % pid):
+                        d = _native_denom(':'.join(kk.split(':')[2:]), addrs)
+                        if amap.get(d) != v:
+                            diffs.append('%s predicted %s native %s' % (kk, v, amap.get(d)))
+            else:
+                nv = int(r['ok']) if 'ok' in r else None
+                if nv != obs[k]:
+                    diffs.append('%s predicted %s native %s' % (k, obs[k], nv))
+        return diffs
+    return steps, judge
+
+
+def _native_denom(d, addrs):
+    for lab in ('pool_manager', 'farm_manager'):
+        if ('factory/%s/' % lab) in d and lab in addrs:
+            d = d.replace('factory/%s/' % lab, 'factory/%s/' % addrs[lab])
+    return d
+
+
+def json_short(x):
+    import json as _j
+    return _j.dumps(x)[:300]
+
+
+def generic_replay(build):
+    """build(model) -> (scenario dict with 'setup' and 'steps', index of the transaction step whose status is observed).
+    The counterexample is confirmed when the native run reproduces every predicted observable: the violated
+    post-condition was evaluated on exactly these values."""
+    def rb(label, m):
+        sc, tx_index = build(m)
+        obs = m.get('_obs', {})
+        extra, judge0 = obs_steps_and_judge(obs, tx_index)
+        base = len(sc['steps'])
+        sc = dict(sc)
+        sc['steps'] = list(sc['steps']) + extra
+
+        def judge(out):
+            diffs = judge0(out, base)
+            if diffs:
+                return False, 'native run differs from the prediction: ' + '; '.join(diffs[:6])
+            return True, 'native run reproduces all %d predicted observables (status, balances, reserves) of the violating execution' % len(obs)
+        return sc, judge
+    return rb
